@@ -206,26 +206,6 @@ theorem localTime_spec (z : Zone) (wf : WF z) (c : ZRng) (hc : CacheOK z c) (u :
   obtain ⟨c1, e1, h1⟩ := offsC_spec z wf c hc u hu
   exact ⟨c1, by unfold localTime; rw [e1], h1⟩
 
-/-- what the two-step fixed point computes -/
-theorem utcTime_eq (z : Zone) (wf : WF z) (c : ZRng) (hc : CacheOK z c) (w : Int) (hw : I32 w)
-    (hw' : I32 (w - off z w)) :
-    ∃ c', utcTime z c w = some (w - off z (w - off z w), c') ∧ CacheOK z c' := by
-  obtain ⟨c1, e1, h1⟩ := offsC_spec z wf c hc w hw
-  unfold utcTime
-  rw [e1]
-  simp only []
-  by_cases h0 : off z w = 0
-  · rw [if_pos h0]
-    refine ⟨c1, ?_, h1⟩
-    simp [h0]
-  · rw [if_neg h0]
-    have hb := off_bound z wf w
-    have e : wrap32 (off z w) = off z w := wrap32_of_I32 _ (by unfold I32 intMin intMax; omega)
-    rw [e]
-    obtain ⟨c2, e2, h2⟩ := offsC_spec z wf c1 h1 (w - off z w) hw'
-    rw [e2]
-    exact ⟨c2, rfl, h2⟩
-
 /-- the result is `u` exactly when the second look-up finds the offset in force at `u` -/
 theorem utcTime_hit_iff (z : Zone) (u : Int) :
     (u + off z u) - off z ((u + off z u) - off z (u + off z u)) = u ↔
